@@ -86,6 +86,13 @@ fn case_typed<F: Family>(input: &Input, ctx: &mut Ctx) -> CaseResult {
 /// nums = [remaining length]: PUBLISH of exactly that remaining length; accepted up to
 /// 268,435,455 (checked like any other packet), refused with an error above.
 fn case_sized<F: Family>(input: &Input, ctx: &mut Ctx) -> CaseResult {
+    if input.nums().len() >= 3 {
+        // boundary-size construction nums = [kind, type, target] of sized.rs
+        return match crate::sized::from_input::<F>(input, ctx) {
+            Some(p) => lengths::<F>(&p, ctx),
+            None => Ok(()),
+        };
+    }
     let rl = input.nums().first().copied().unwrap_or(2) as usize;
     let p = c01::sized_publish::<F>(rl);
     if rl <= 268_435_455 {
@@ -180,6 +187,15 @@ pub fn run(env: &mut Env) -> RunResult {
     let inputs: Vec<Input> = sizes.iter().map(|s| Input::Nums(vec![*s])).collect();
     env.run_inputs(SUB_S3, &inputs)?;
     env.run_inputs(SUB_S5, &inputs)?;
+    let s3 = crate::sized::inputs(model::Fam::V3, env.thorough());
+    let n3 = s3.len() as u64;
+    env.run_enum(SUB_S3, n3, false, move |i| s3[i as usize].clone())?;
+    let s5 = crate::sized::inputs(model::Fam::V5, env.thorough());
+    let n5 = s5.len() as u64;
+    env.run_enum(SUB_S5, n5, false, move |i| s5[i as usize].clone())?;
+    env.require("c02.sized.v5", "sized-properties");
+    env.require("c02.sized.v5", "sized-will-properties");
+    env.require("c02.sized.v5", "sized:2MiB-boundary");
     // property sections: 2048 x (5 + 2*65535) = 268,441,600 > limit; 4096 x 65540; 70,000 x 3,835
     let mut o: Vec<Input> = vec![Input::Nums(vec![2_049, 65_535]), Input::Nums(vec![4_100, 32_768]), Input::Nums(vec![70_000, 1_915]), Input::Nums(vec![3, 40_000])];
     if env.thorough() {
